@@ -236,6 +236,14 @@ def check_fusion(ctx, case, A, B, fused, mapping, tag):
     return True
 
 
+_STREAM_KINDS = [
+    ("list,list", list, list), ("tuple,tuple", tuple, tuple),
+    ("list,generator", list, lambda b: (s for s in b)), ("generator,list", lambda a: (s for s in a), list),
+    ("iter,iter", iter, iter), ("list,filter", list, lambda b: filter(lambda s: True, b)),
+    ("list,list", list, list),
+]
+
+
 @check("C20.fuse")
 def c_fuse(ctx, case):
     A, B, depth = case
@@ -244,8 +252,12 @@ def c_fuse(ctx, case):
     for k in range(depth):
         ctx.case(None)
         ctx.count("fusions")
+        # the streams are handed over as lists, tuples or ONE-SHOT iterables (what a caller
+        # filtering or generating statements passes); the judgement uses the lists
+        wrap = _STREAM_KINDS[(len(cur_a) + 3 * len(B) + k) % len(_STREAM_KINDS)]
+        ctx.count("stream_kind:" + wrap[0])
         try:
-            fused, mapping = fuse_statement_streams_with_unique_ids(cur_a, B)
+            fused, mapping = fuse_statement_streams_with_unique_ids(wrap[1](cur_a), wrap[2](B))
         except Exception as ex:  # noqa: BLE001
             ctx.fail("C20.fuse", case, f"raised:{type(ex).__name__}",
                      f"fusion {k} raised {type(ex).__name__}: {ex}; a={[s.id for s in cur_a]} "
